@@ -1,6 +1,6 @@
 # C19 - coroutine storage policies give every frame exclusive, correctly freed memory
 import re
-from ..core import norm, relloc, live, calls, evs, Broken, value_origin, Tracer, fmt_trace, rooted, has_back_edge, cond_event
+from ..core import norm, relloc, live, calls, evs, Broken, value_origin, Tracer, fmt_trace, rooted, has_back_edge, cond_event, tests
 from .. import atomic, witness
 from ..rules import *
 
@@ -78,6 +78,73 @@ def _ptracer(db):
     return htracer(db, extra=None) if False else Tracer(db, depth=3, inline_filter=lambda c, e, callee: is_helper(db, c, callee) and not re.search(r'::(alloc|dealloc)$', callee['nname']), maxvisit=2)
 
 
+def _feasible(db, tr):
+    """a bool local that is defined once has one value per activation of its frame: a trace that leaves `if (!on_stack)` one way and
+    `on_stack ? 0 : 1` the other way is not a path of the program (the path enumerator does not correlate repeated tests of one flag)"""
+    from ..core import bool_locals
+    known = {}
+    for it in tr:
+        if it.k == 'decl' and (it.get('type') or '').replace('const ', '').strip() in ('_Bool', 'bool'):
+            # the flag is (re)computed: what was known about the flags of that frame belongs to an earlier activation / iteration
+            for k in [k for k in known if k[0] == it.get('fn') and k[1] == it.get('depth')]:
+                del known[k]
+        elif it.k == 'branch':
+            m = re.fullmatch(r'local:(\w+)', it.get('opath') or '')
+            g = db.get(it.get('fn')) if m and it.get('fn') else None
+            if g is None or m.group(1) not in bool_locals(g):
+                continue
+            k = (it.get('fn'), it.get('depth'), m.group(1))
+            v = bool(it.get('oval', it.val))
+            if k in known and known[k] != v:
+                return False
+            known[k] = v
+    return True
+
+
+def _traces(db, T, f, dead=False):
+    """the feasible (and, by default, live) traces of f"""
+    return [t for t in T.traces(f) if (dead or live(t)) and _feasible(db, t)]
+
+
+_PTR = r'(?:local:\w+(?:#\d+)?|param:\w+|call\([^()]*\))'
+
+
+def _sub_index(tr, i):
+    """index of the subscript access tr[i] (a read / write of `base[]`: the extractor's access paths drop the index).  Every sub-expression is
+    one CFG element and events are numbered by element: the access is preceded by the subscript expression itself and that by the element
+    that computes the index, so the index is known exactly when that element is a plain load of a variable; None otherwise (arithmetic,
+    a literal, a cast - nothing the facts keep)"""
+    it = tr[i]
+    if it.k == 'write' and (it.get('op') or '=') != '=' or it.get('id') is None:
+        return None
+    for x in reversed(tr[max(0, i - 16):i]):
+        if x.k in ('enter', 'leave', 'branch', 'switch'):
+            break
+        if x.get('fn') == it.get('fn') and x.get('depth') == it.get('depth') and x.get('id') == it['id'] - 2:
+            return x.get('path') if x.k in ('use', 'read') and re.fullmatch(r'(?:param|local):\w+(?:#\d+)?|\(.*\)|\d+', x.get('path') or '') else None
+    return None
+
+
+def _sub_address(tr, i, p):
+    """`base[]` accessed at tr[i] as the address expression (base + index); raises Broken when the facts do not say what the index is"""
+    idx = _sub_index(tr, i)
+    if idx is None:
+        raise Broken('%s: the index of the subscript access %s is not a plain variable - the extracted access path drops it, the offset cannot be decided' % (tr[i].get('fname') or '?', p))
+    return '(%s + %s)' % (p[:-2], idx)
+
+
+def _val(tr, i, p):
+    """the value of expression p at position i of the trace: through locals, helper returns and the arm of a conditional expression that
+    the branches of this path selected (owner = acquired ? this : nullptr)"""
+    for _ in range(6):
+        q, j = origin_in_trace(tr, i, p)
+        q2 = resolve_select(q, tr[:j + 1]) if q else q
+        if q2 == p or q2 is None:
+            return q2 if q2 is not None else p
+        p, i = q2, j
+    return p
+
+
 UNDER_ALLOC = re.compile(r'^(operator new|cocls::\w+::alloc)$')
 UNDER_FREE = re.compile(r'^(operator delete|cocls::\w+::dealloc)$')
 
@@ -109,9 +176,9 @@ def trailers(ctx, db, rid_='C19.trailer'):
             if f['key'] in seen and cls != 'cocls::promise_extra_storage':
                 continue
             seen.add(f['key'])
-            trs = [t for t in T.traces(f) if live(t)]
+            trs = _traces(db, T, f)
             ctx.paths(rid, len(trs))
-            bad = None
+            bad = None if trs else ('alloc has no feasible path that returns', [])
             for tr in trs:
                 req = [it for it in tr if it.k == 'call' and UNDER_ALLOC.match(norm(it.get('callee') or '')) and norm(it.get('callee')) != cls + '::alloc']
                 tw = [(i, it) for i, it in enumerate(tr) if it.k in ('write', 'new') and _is_trailer_write(f, tr, i)]
@@ -155,13 +222,14 @@ def trailers(ctx, db, rid_='C19.trailer'):
             ctx.ob(rid, f, f['key'], bad is None, '%s::alloc: sz + trailer requested, trailer at offset sz' % cls.split('::')[-1] + ('' if not bad else ' -- ' + bad[0]), desc=(bad[0][:110] if bad else None),
                    trace=fmt_trace(bad[1]) if bad else None, inst=f['inst'])
         seen = set()
+        dforms = {}
         for f in deallocs:
             if f['key'] in seen and cls != 'cocls::promise_extra_storage':
                 continue
             seen.add(f['key'])
             forms = []
-            for tr in T.traces(f):
-                for e in tr:
+            for tr in _traces(db, T, f, dead=True):
+                for i_, e in enumerate(tr):
                     # every address computed from the size: initialisers, values returned by helpers, dereferenced expressions, arguments of
                     # anything but the underlying release (which legitimately gets sz + trailer as a size)
                     cands = []
@@ -171,6 +239,9 @@ def trailers(ctx, db, rid_='C19.trailer'):
                         cands.append(e.get('path'))
                     elif e.k in ('read', 'use'):
                         cands.append(e.get('path'))
+                        if e.k == 'read' and re.fullmatch(_PTR + r'\[\]', e.get('path') or ''):
+                            # reinterpret_cast<char *>(ptr)[sz]: the byte at ptr + sz read in index syntax
+                            cands.append('*(%s)' % _sub_address(tr, i_, _val(tr, i_, e['path'][:-2]) + '[]'))
                     elif e.k == 'cmp':
                         cands += [e.get('lhs'), e.get('rhs')]
                     elif e.k == 'call' and not UNDER_FREE.match(norm(e.get('callee') or '')):
@@ -187,8 +258,17 @@ def trailers(ctx, db, rid_='C19.trailer'):
                                 l_ = None
                             if l_ is not None and l_.get('SZ') and set(l_) - {'SZ', 'SIZEOF', ''}:
                                 forms.append(l_)          # an address: some base plus something of the size
-            ok = len(forms) >= 1 and all(l_.get('SZ') == 1 and l_.get('', 0) == 0 and l_.get('SIZEOF', 0) == 0 and l_.get('param:ptr') == 1 for l_ in forms)
-            ctx.ob(rid, f, f['key'], ok, '%s::dealloc reads the trailer at ptr + sz' % cls.split('::')[-1], desc='dealloc reads the trailer at another offset than alloc wrote it', inst=f['inst'])
+            dforms.setdefault(f['key'], []).append((f, forms))
+        for key_, lst_ in dforms.items():
+            for f, forms in lst_:
+                if not forms:
+                    # an instantiation in which the trailer access leaves no event (the explicit destructor call of a trivially destructible
+                    # extra object is a no-op: `reinterpret_cast<int *>(bytes + sz)->~T()`): the address expression is the one of the pattern,
+                    # it is judged on the instantiations of the same source text that do access the trailer
+                    forms = [l_ for g_, fs_ in lst_ if g_ is not f for l_ in fs_]
+                pn_ = 'param:' + (f['params'][0]['name'] if f.get('params') else 'ptr')
+                ok = len(forms) >= 1 and all(l_.get('SZ') == 1 and l_.get('', 0) == 0 and l_.get('SIZEOF', 0) == 0 and l_.get(pn_) == 1 for l_ in forms)
+                ctx.ob(rid, f, f['key'], ok, '%s::dealloc reads the trailer at ptr + sz' % cls.split('::')[-1], desc='dealloc reads the trailer at another offset than alloc wrote it', inst=f['inst'])
     # promise_extra_storage: size handed back == size requested
     for f in db.need('cocls::promise_extra_storage::alloc'):
         a = [e for e in f.events() if e.k == 'call' and UNDER_ALLOC.match(norm(e.get('callee') or '')) and not norm(e['callee']).startswith('cocls::promise_extra_storage')]
@@ -206,6 +286,8 @@ def _is_trailer_write(f, tr, i):
     it = tr[i]
     if it.k == 'write' and re.fullmatch(r'\*\((local:\w+(#\d+)?|call\([^()]*\))\)', it.get('path') or ''):
         return True
+    if it.k == 'write' and re.fullmatch(_PTR + r'\[\]', it.get('path') or ''):
+        return True           # reinterpret_cast<char *>(block)[sz] = flag: the same store in index syntax
     if it.k == 'new' and it.get('placement'):
         return True
     return False
@@ -215,7 +297,12 @@ def _offset_of(f, tr, i):
     """linear form (relative to the block base) of the address a trailer write goes to"""
     it = tr[i]
     var = None
-    if it.k == 'write':
+    if it.k == 'write' and (it.get('path') or '').endswith('[]'):
+        # index syntax: base[idx] is *(base + idx); the base through locals and helper returns
+        base = it['path'][:-2]
+        var = _sub_address(tr, i, _val(tr, i, base) + '[]')
+        addr = var
+    elif it.k == 'write':
         var = re.fullmatch(r'\*\((.*)\)', it.get('path') or '').group(1)
     elif it.k == 'new':
         var = (it['placement'][0].get('path') or '')
@@ -242,25 +329,28 @@ def pairing(ctx, db, rid_='C19.pairing'):
     T = _ptracer(db)
     # mtsafe
     for f in db.need('cocls::reusable_storage_mtsafe::alloc')[:1]:
-        bad = None
-        for tr in [t for t in T.traces(f) if live(t)]:
+        bad = None; outcomes = set()
+        for tr in _traces(db, T, f):
             heap = any(it.k == 'call' and norm(it.get('callee')) == 'operator new' for it in tr)
-            own = [it for i_, it in enumerate(tr) if it.k == 'write' and _is_trailer_write(f, tr, i_)]
-            ow = value_origin(f, own[-1].get('rhs')) if own else None
+            outcomes.add(heap)
+            own = [(i_, it) for i_, it in enumerate(tr) if it.k == 'write' and _is_trailer_write(f, tr, i_)]
             marker = None
-            ws = [it for it in tr if it.k == 'write' and (it.get('path') or '') == (own[-1].get('rhs') if own else None)]
-            if ws:
-                marker = 'null' if (ws[-1].get('const') == 0 or (ws[-1].get('rhs') or '') in NULLS) else ('this' if ws[-1].get('rhs') == 'this' else ws[-1].get('rhs'))
-            elif own:
-                marker = 'null' if (own[-1].get('const') == 0 or (own[-1].get('rhs') or '') in NULLS) else own[-1].get('rhs')
+            if own:
+                # what is stored: through the local it was put in (declared, or assigned in both arms), a helper's parameter, and the arm of a
+                # conditional expression this path selected (owner = acquired ? this : nullptr)
+                i_, w_ = own[-1]
+                m_ = _val(tr, i_, w_.get('rhs')) if w_.get('rhs') else None
+                marker = 'null' if (w_.get('const') == 0 or (m_ or '') in NULLS) else m_
             if heap and marker != 'null':
                 bad = bad or 'a heap fallback block is tagged with an owner: dealloc would mark the shared block free instead of deleting this one'
             if not heap and marker != 'this':
                 bad = bad or 'the shared block is not tagged with its owner'
+        if not bad and outcomes != {True, False}:
+            bad = 'alloc lost its shared-block / heap-fallback outcomes'
         ctx.ob(rid, f, f['key'], bad is None, 'mtsafe alloc: null owner iff heap fallback' + ('' if not bad else ' -- ' + bad), desc=bad)
     for f in db.need('cocls::reusable_storage_mtsafe::dealloc')[:1]:
         bad = None; n = 0
-        for tr in [t for t in T.traces(f) if live(t)]:
+        for tr in _traces(db, T, f):
             owner = None
             for it in tr:
                 if it.k == 'branch':
@@ -279,30 +369,43 @@ def pairing(ctx, db, rid_='C19.pairing'):
         ctx.ob(rid, f, f['key'], bad is None and n >= 2, 'mtsafe dealloc: delete iff null owner, release busy flag otherwise' + ('' if not bad else ' -- ' + bad), desc=bad)
     # stack storage
     for f in db.need('cocls::stack_storage::alloc')[:1]:
-        bad = None
-        for tr in [t for t in T.traces(f) if live(t)]:
+        bad = None; outcomes = set()
+        for tr in _traces(db, T, f):
             heap = any(it.k == 'call' and norm(it.get('callee')) == 'operator new' for it in tr)
-            fl = [it for i_, it in enumerate(tr) if it.k == 'write' and _is_trailer_write(f, tr, i_)]
-            fv = (fl[-1].get('const') if fl[-1].get('const') is not None else (int(fl[-1]['rhs']) if re.fullmatch(r'\d+', fl[-1].get('rhs') or '') else None)) if fl else None
+            outcomes.add(heap)
+            fl = [(i_, it) for i_, it in enumerate(tr) if it.k == 'write' and _is_trailer_write(f, tr, i_)]
+            fv = None
+            if fl:
+                i_, w_ = fl[-1]
+                fv = w_.get('const')
+                if fv is None:
+                    # the value through a local / a helper's parameter / the arm of `on_stack ? 0 : 1` selected on this path
+                    v_ = _val(tr, i_, w_.get('rhs')) if w_.get('rhs') else ''
+                    fv = int(v_) if re.fullmatch(r'\d+', v_ or '') else None
             if not fl or fv != (1 if heap else 0):
                 bad = bad or 'the flag byte does not say whether the block came from the heap'
+        if not bad and outcomes != {True, False}:
+            bad = 'alloc lost its in-place / heap outcomes'
         ctx.ob(rid, f, f['key'], bad is None, 'stack_storage alloc: flag = 1 iff ::operator new' + ('' if not bad else ' -- ' + bad), desc=bad)
     for f in db.need('cocls::stack_storage::dealloc')[:1]:
-        bad = None
-        for tr in [t for t in T.traces(f) if live(t)]:
+        bad = None; outcomes = set()
+        for tr in _traces(db, T, f):
             flag = None
             for i_, it in enumerate(tr):
                 nt = null_test(tr, i_) if it.k == 'branch' else None
-                if nt and re.fullmatch(r'\*\((local:\w+(#\d+)?|call\([^()]*\)|\(.*param:sz.*\))\)', nt[0] or ''):
-                    flag = bool(nt[1])
+                if nt and (re.fullmatch(r'\*\((local:\w+(#\d+)?|call\([^()]*\)|\(.*param:sz.*\))\)', nt[0] or '') or re.fullmatch(_PTR + r'\[\]', nt[0] or '')):
+                    flag = bool(nt[1])         # if (*flag), if (*heap_flag(ptr, sz)), if (bytes[sz] != 0)
             dels = [it for it in tr if it.k == 'call' and norm(it.get('callee')) == 'operator delete']
+            outcomes.add(flag)
             if flag is None or (flag and len(dels) != 1) or (not flag and dels):
                 bad = bad or 'delete does not happen exactly on the flag-set edge'
+        if not bad and outcomes != {True, False}:
+            bad = 'dealloc lost its flag-set / flag-clear outcomes'
         ctx.ob(rid, f, f['key'], bad is None, 'stack_storage dealloc: delete iff flag' + ('' if not bad else ' -- ' + bad), desc=bad)
     # reusable_storage
     for f in db.need('cocls::reusable_storage::alloc')[:1]:
         bad = None
-        for tr in [t for t in T.traces(f) if live(t)]:
+        for tr in _traces(db, T, f):
             nw = all_indices(tr, lambda ev: ev.k == 'call' and norm(ev.get('callee')) == 'operator new')
             dl = all_indices(tr, lambda ev: ev.k == 'call' and norm(ev.get('callee')) == 'operator delete' and norm((ev.get('args') or [{}])[0].get('field') or '') == 'cocls::reusable_storage::_ptr')
             if nw and (len(dl) != 1 or dl[0] > nw[0]):
@@ -377,7 +480,7 @@ def reuse(ctx, db, rid_='C19.reuse'):
     T = _ptracer(db)
     for f in db.need('cocls::reusable_storage::alloc')[:1]:
         bad = None
-        for tr in [t for t in T.traces(f) if live(t)]:
+        for tr in _traces(db, T, f):
             nw = [it for it in tr if it.k == 'call' and norm(it.get('callee')) == 'operator new']
             grow = None
             for b in tr:
@@ -405,21 +508,32 @@ def reuse(ctx, db, rid_='C19.reuse'):
                     bad = bad or 'the recorded capacity is not the allocated size'
         ctx.ob(rid, f, f['key'], bad is None, 'allocate iff sz > capacity, capacity := allocated size' + ('' if not bad else ' -- ' + bad), desc=bad)
     for f in db.need('cocls::reusable_storage_mtsafe::alloc')[:1]:
-        ops = [e for e in f.events() if e.k == 'call' and atomic.is_atomic_call(e) and norm(e.get('field') or '') == 'cocls::reusable_storage_mtsafe::_busy']
-        ok = len(ops) == 1 and atomic.opname(ops[0]) == 'exchange' and (ops[0].get('args') or [{}])[0].get('const') == 1
+        # the claim may sit in a helper of the class (bool try_lock_block() { return !_busy.exchange(true, acquire); }): every atomic operation
+        # on the busy flag in alloc and the helpers it reaches, and the operations each path executes
+        bodies = [g_ for g_ in helper_bodies(db, f) if g_ is f or not re.search(r'::(alloc|dealloc)$', g_['nname'])]
+        ops = [(g_, e) for g_ in bodies for e in g_.events() if e.k == 'call' and atomic.is_atomic_call(e) and norm(e.get('field') or '') == 'cocls::reusable_storage_mtsafe::_busy']
+        ok = len(ops) == 1 and atomic.opname(ops[0][1]) == 'exchange' and (ops[0][1].get('args') or [{}])[0].get('const') == 1
         cas = False
-        if not ok and len(ops) == 1 and atomic.opname(ops[0]) == 'compare_exchange_strong' and len(ops[0].get('args') or []) >= 2 and ops[0]['args'][1].get('const') == 1:
+        if not ok and len(ops) == 1 and atomic.opname(ops[0][1]) == 'compare_exchange_strong' and len(ops[0][1].get('args') or []) >= 2 and ops[0][1]['args'][1].get('const') == 1:
             # the same claim spelled as a strong compare-exchange false -> true: it succeeds exactly when the flag was clear
-            exp_ = ops[0]['args'][0].get('path') or ''
-            d_ = [e for e in f.events() if e.k == 'decl' and e.get('var') in (exp_, exp_.replace('local:', ''))]
-            w_ = [e for e in f.events() if e.k == 'write' and e.get('path') == exp_]
+            g_, o_ = ops[0]
+            exp_ = o_['args'][0].get('path') or ''
+            d_ = [e for e in g_.events() if e.k == 'decl' and e.get('var') in (exp_, exp_.replace('local:', ''))]
+            w_ = [e for e in g_.events() if e.k == 'write' and e.get('path') == exp_]
             cas = ok = len(d_) == 1 and d_[0].get('const') == 0 and not w_
-        ctx.ob(rid, f, f['key'], ok, 'the busy flag is claimed by a single exchange(true) (found %s)' % [atomic.opname(o) for o in ops], desc='busy flag not claimed by a single atomic exchange(true)')
+        trs = _traces(db, T, f)
+        # ... and executed exactly once on every path
+        def claims(tr):
+            return [it for it in tr if it.k == 'call' and atomic.is_atomic_call(it) and norm(it.get('field') or '') == 'cocls::reusable_storage_mtsafe::_busy']
+        ok = ok and bool(trs) and all(len(claims(tr)) == 1 for tr in trs)
+        ctx.ob(rid, f, f['key'], ok, 'the busy flag is claimed by a single exchange(true) (found %s)' % [atomic.opname(o[1]) for o in ops], desc='busy flag not claimed by a single atomic exchange(true)')
         bad = None
-        for tr in [t for t in T.traces(f) if live(t)]:
+        for tr in trs:
             was_busy = None
+            cl = claims(tr)
             for it in tr:
-                if it.k == 'branch' and ops and it.get('depth', 0) == 0 and it.cond_ev == ops[0].get('id'):
+                # the branch that tests what the claim returned: directly, through a flag local, or through the helper that returned (the negation of) it
+                if it.k == 'branch' and cl and tests(it, cl[-1]):
                     was_busy = bool(it.val) != cas
             shared = any(it.k == 'call' and norm(it.get('callee')) == 'cocls::reusable_storage::alloc' for it in tr)
             if was_busy is None:
@@ -471,7 +585,7 @@ def routing(ctx, db, rid_='C19.routing'):
 def _is_ceil_div(e):
     """is the expression ceil(sz / K) for one item size K (a constant local, a sizeof, a literal)?"""
     e = re.sub(r'\s+', '', e or '')
-    K = r'(local:\w+|global:[\w:<>,*&]+|sizeof\(.*?\)|\d+)'
+    K = r'(local:\w+(?:#\d+)?|global:[\w:<>,*&]+|sizeof\(.*?\)|\d+)'
     m = re.fullmatch(r'\(\(\(param:sz\+%s\)-1\)/%s\)' % (K, K), e) or re.fullmatch(r'\(\(param:sz\+\(%s-1\)\)/%s\)' % (K, K), e)
     if m:
         return m.group(1) == m.group(2)
